@@ -114,6 +114,15 @@ Example C08_refines_S2_repaired_ex :
   = [(RBool true, []); (RBool true, []); (RGet 10 true, []); (RBool true, [(2, 20)]); (RBool false, []); (RGet 0 false, [])].
 Proof. vm_compute. reflexivity. Qed.
 
+(* the model itself, with zero and negative sizes (sizeOf v = v mod 3 - 1), against the reference *)
+Example C08_refines_S2_repaired_neg_ex :
+  run_new Z Z Z.eqb 0 0 (size_mode (-3)) repaired 2 [OPut 0 0; OPut 1 1; OPut 2 2; OSize; ORemove 0; OSize; OLen; OPut 3 5; OSize; OClear; OSize]
+  = map ok_event [(RBool true, []); (RBool true, []); (RBool true, []); (RNum 0, []); (RBool true, [(0, 0)]); (RNum 1, []);
+                  (RNum 2, []); (RBool true, []); (RNum 2, []); (RUnit, [(1, 1); (2, 2); (3, 5)]); (RNum 0, [])] /\
+  run_new Z Z Z.eqb 0 0 (size_mode (-3)) repaired 2 [OPut 0 0; OPut 1 1; OPut 2 2; OSize; ORemove 0; OSize; OLen; OPut 3 5; OSize; OClear; OSize]
+  = map ok_event (s2_run Z Z Z.eqb 0 (size_mode (-3)) 2 [] [OPut 0 0; OPut 1 1; OPut 2 2; OSize; ORemove 0; OSize; OLen; OPut 3 5; OSize; OClear; OSize]).
+Proof. split; vm_compute; reflexivity. Qed.
+
 (* THE CODE AS IT IS (any heap whose pop never sifts up, in particular [pinned]): the same equality
    with the reference LRU — eviction order included — for every history on which the F2 trigger
    never fires.  [run_new_safe] (CacheModel.v) tests, before each call, the heapq.Remove(pos) that
